@@ -12,6 +12,7 @@
 import ZapModel.Script
 import ZapModel.Spec
 import ZapModel.Life
+import ZapModel.Vector
 import ZapModel.EncCheck
 import Std.Data.HashMap
 
@@ -42,6 +43,8 @@ structure St where
   specChecked : Nat := 0
   specDiffs : List String := []
   refs : Std.HashMap String RefSt := {}
+  vcaches : Std.HashMap String VCache := {}
+  handles : Std.HashMap String (String × Name × Option (List Nat) × Bool × Bool) := {}   -- seg, field, except, filtering, has index
 
 def St.seg? (st : St) (n : String) : Option Seg := (st.segs.get? n).map (·.1)
 
@@ -222,6 +225,102 @@ def footerCheck (c : Cmd) (got : String) : Bool :=
       ok1 && Codec.crc32 (unhx body ++ fb.take 48) == be 48 4
   | _, _, _ => false
 
+
+/-! ### vector commands -/
+
+def parseVHits (s : String) : List VHit :=
+  if s == "-" then [] else (s.splitOn ",").map (fun t =>
+    match t.splitOn ":" with
+    | [d, sc] => { doc := d.toNat?.getD 0, score := sc.toInt?.getD 0 }
+    | _ => default)
+
+def St.vecIx? (st : St) (seg : String) (f : Name) : Option VecIx :=
+  match st.seg? seg with
+  | none => none
+  | some s => match s.field? f with
+    | none => none
+    | some fm => fm.vec
+
+def St.totalLive (st : St) : Nat := st.vcaches.fold (fun acc _ c => acc + c.live) 0
+
+def countersOk (st : St) (g : String) : Bool :=
+  kvOf g "live" == some (toString st.totalLive) ∧ kvOf g "dclose" == some "0" ∧ kvOf g "uac" == some "0"
+
+def vecObs (st : St) (c : Cmd) : St × Verdict :=
+  match c.op with
+  | "vreset" => ({ st with vcaches := {}, handles := {} }, .none)
+  | "vopen" =>
+    let seg := c.arg 1
+    let f := strBytes (c.arg 2)
+    let has := (st.vecIx? seg f).isSome
+    let cache := st.vcaches.getD seg {}
+    let st := { st with handles := st.handles.insert (c.arg 0) (seg, f, parseBitmap (c.getD "ex" "nil"), c.getD "filt" "0" == "1", has),
+                        vcaches := if has then st.vcaches.insert seg (cache.open f) else st.vcaches }
+    (st, .exact "ok")
+  | "vclose" =>
+    match st.handles.get? (c.arg 0) with
+    | none => (st, .exact "scripterror:nohandle")
+    | some (seg, f, _, _, has) =>
+      let cache := st.vcaches.getD seg {}
+      ({ st with handles := st.handles.erase (c.arg 0),
+                 vcaches := if has then st.vcaches.insert seg (cache.closeHandle f) else st.vcaches }, .exact "ok")
+  | "vsearch" =>
+    match st.handles.get? (c.arg 0) with
+    | none => (st, .exact "scripterror:nohandle")
+    | some (seg, f, ex, _, _) =>
+      let q := parseIntList (c.getD "q" "-")
+      let k := c.nat "k" 1
+      let numDocs := ((st.seg? seg).map (·.numDocs)).getD 0
+      match st.vecIx? seg f with
+      | none => (st, .exact "cnt=0 hits=-")
+      | some ix =>
+        if ix.dim ≠ q.length then (st, .exact "cnt=0 hits=-") else
+        let eligRaw := (c.get? "elig").map (parseNatList ",")
+        match eligRaw with
+        | some [] => (st, .exact "cnt=0 hits=-")
+        | _ =>
+          -- a filter naming as many ids as the segment has documents takes the unfiltered path
+          let elig := match eligRaw with
+            | some l => if l.length = numDocs then none else some l
+            | none => none
+          let M := admissible ix q ex elig
+          let exact := isExact ix
+          (st, .pred (fun g =>
+              let R := parseVHits ((kvOf g "hits").getD "-")
+              kvOf g "cnt" == some (toString R.length) &&
+              (if exact then validTopK ix.metric k M R else soundHits k M R))
+            (if exact then s!"a best-{k} selection of {M.length} admissible vectors with true scores"
+             else s!"at most {k} admissible vectors with true scores"))
+  | "vtick" =>
+    let seg := c.arg 0
+    let cache := st.vcaches.getD seg {}
+    (st, .pred (fun g =>
+        let ev := (parseStrList ((kvOf g "evicted").getD "-")).map strBytes
+        cache.tickLegal ev &&
+        (let st' := { st with vcaches := st.vcaches.insert seg (cache.tick ev) }
+         countersOk st' g))
+      "only entries without open handles evicted; engine live = cached entries; no double close / use after close")
+  | "vcounters" => (st, .pred (countersOk st) s!"live={st.totalLive} dclose=0 uac=0")
+  | "vstats" =>
+    match st.seg? (c.arg 0) with
+    | none => (st, .exact "scripterror:noseg")
+    | some s =>
+      let parts := s.loadedFields.filterMap (fun f => f.vec.map (fun ix => s!"{nameStr f.name}:{ix.vecs.length}"))
+      (st, .exact (strList (sortStrs parts)))
+  | "buildfault" =>
+    (st, .pred (fun g => if kvOf g "fired" == some "1" then g.startsWith "err:engine" ∧ kvOf g "englive" == some "0"
+                         else g.startsWith "ok") "engine fault => err:engine and no live index; no fault => ok")
+  | _ => (st, .none)
+
+/-- the eviction reported by a tick is applied to the model after validation -/
+def applyTick (st : St) (c : Cmd) (got : String) : St :=
+  if c.op == "vtick" then
+    let seg := c.arg 0
+    let cache := st.vcaches.getD seg {}
+    let ev := (parseStrList ((kvOf got "evicted").getD "-")).map strBytes
+    { st with vcaches := st.vcaches.insert seg (cache.tick ev) }
+  else st
+
 /-- Expected outcome of a non-query command; also updates the model state. -/
 def commandObs (st : St) (c : Cmd) : St × Verdict :=
   match c.op with
@@ -275,7 +374,9 @@ def commandObs (st : St) (c : Cmd) : St × Verdict :=
                            refs := st.refs.insert (c.arg 0) {},
                            segBatch := (match st.fileBatch.get? (c.arg 1) with | some b => st.segBatch.insert (c.arg 0) b | none => st.segBatch.erase (c.arg 0)),
                            d3 := if st.d3.contains (c.arg 1) then st.d3.insert (c.arg 0) true else st.d3 }, .exact "ok")
-  | "close" => (st, .exact "ok")
+  | "close" =>
+    let cache := st.vcaches.getD (c.arg 0) {}
+    ({ st with vcaches := st.vcaches.insert (c.arg 0) cache.clear }, .exact "ok")
   | "merge" =>
     let names := parseStrList (c.getD "segs" "-")
     let segs := names.filterMap st.seg?
@@ -290,6 +391,10 @@ def commandObs (st : St) (c : Cmd) : St × Verdict :=
     if cl == "before" then (st, .pred (fun g => g.startsWith "err:closed file=0") "err:closed file=0")
     else if cl.startsWith "report:" then
       (st', .pred (fun g => g.startsWith "err:closed file=0" ∨ g.startsWith okStr) ("err:closed file=0 or " ++ okStr))
+    else if (c.get? "engfail").isSome then
+      (st', .pred (fun g => if kvOf g "fired" == some "0" then g.startsWith okStr
+                            else g.startsWith "err:engine file=0" ∧ kvOf g "englive" == some "0")
+            ("err:engine file=0 englive=0 (or, if the fault did not fire, " ++ okStr ++ ")"))
     else match c.get? "fsize" with
       | some lim =>
         -- the size of a merge output varies by a few bytes from run to run (sections are written in Go map
@@ -325,7 +430,7 @@ def commandObs (st : St) (c : Cmd) : St × Verdict :=
           (st, .pred (fun g => (kvOf g "fds") == some "1" ∧ ((kvOf g "maps").bind String.toNat?).getD 0 ≥ 1) "mapping and descriptor still held (maps>=1 fds=1)")
         else (st, .exact "maps=0 fds=0")
       | _ => (st, .none)
-  | _ => (st, .none)
+  | _ => vecObs st c
 
 /-- For segments that are zero-survivor merges (known finding D3) only the
     relaxed oracle applies: Count 0, no panic, no error, every query empty,
